@@ -21,7 +21,7 @@ struct caption { int carved_out; };
 
 /* Big static objects are only compiled in when an obligation asks for them (-DG_xxx from the Ob): every static costs
    symex time in __CPROVER_initialize (field-sensitive zero initialisation), whether the harness uses it or not. */
-#if !defined(G_DEC) && !defined(G_DECCOPY) && !defined(G_CP) && !defined(G_CPD) && !defined(G_MAG) && !defined(G_RP) && !defined(G_NONE)
+#if !defined(G_DEC) && !defined(G_X28) && !defined(G_DECCOPY) && !defined(G_CP) && !defined(G_CPD) && !defined(G_MAG) && !defined(G_RP) && !defined(G_NONE)
 #define G_DEC
 #define G_DECCOPY
 #define G_CP
@@ -438,41 +438,40 @@ V_HARNESS(h_ttx_addr_error)
 #endif
 
 /* =============== parse_28_29 (X/28, M/29 enhancement) =============== */
-#if defined(G_DEC) && defined(G_CP)
+#if defined(G_X28) && defined(G_CP)
+/* Cut (R2): parse_28_29 reads vbi->cn and writes the default extension of ONE magazine.  The decoder is a never-written byte
+   image that only holds the cn pointer; the network object is the PREFIX of cache_network up to and including magazine 1
+   (MAGN must be 1): any access to another part of the network is then an out-of-bounds failure.  This keeps the written
+   object at 3.5 KB instead of 35 KB (every store costs a new version of the whole object). */
+#if (MAGN & 7) != 1
+#error "h_2829 is built for magazine 1 (prefix network object)"
+#endif
+#define X28_CN_SIZE (offsetof(cache_network, _magazines) + sizeof(struct ttx_magazine))
+static _Alignas(16) uint8_t X28_CN[X28_CN_SIZE];
+static _Alignas(16) uint8_t X28_VBI[offsetof(vbi_decoder, cn) + sizeof(cache_network *)];
 V_HARNESS(h_2829)
 {
-  uint8_t raw[40], r2[40]; vbi_bool a, b; unsigned pos; int pk; struct ttx_extension e1, e2, m1, m2;
-  const int mag8 = (MAGN & 7) ? (MAGN & 7) : 8;
+  uint8_t raw[40]; vbi_bool a; int pk; unsigned des;
+  const int mag8 = 1; cache_network *cn = (cache_network *) X28_CN; vbi_decoder *vbi = (vbi_decoder *) X28_VBI;
   V_INIT();
-  ttx_state_init();
-  memset(&CP, 0, sizeof CP); CP.function = (enum ttx_page_function) ((int) (in_u8() % 19) - 4);
+  memcpy(X28_VBI + offsetof(vbi_decoder, cn), &cn, sizeof cn);
+  CP.function = (enum ttx_page_function) ((int) (in_u8() % 19) - 4);
   in_bytes(&CP.data.ext_lop.ext, sizeof CP.data.ext_lop.ext);
-  in_bytes(&CN._magazines[mag8 - 1].extension, sizeof CN._magazines[0].extension);
-  CP2 = CP; m1 = CN._magazines[mag8 - 1].extension;
-  in_bytes(raw, 40); pos = in_u16(); pk = 28 + (in_u8() & 1);
-  { unsigned d = in_u32(), des = in_u8() & 15;
+  in_bytes(&cn->_magazines[0].extension, sizeof cn->_magazines[0].extension);
+  in_bytes(raw, 40); pk = 28 + (in_u8() & 1); des = in_u8() & 15;
 #ifdef DESSEL    /* designation code and packet number enumerated by the runner */
-    des = (DESSEL);
+  des = (DESSEL);
 #endif
 #ifdef PK2829
-    pk = (PK2829);
+  pk = (PK2829);
 #endif
-    V_ASSUME(pos < 320);
-    raw[0] = (uint8_t) ref_ham8(des);
-    if (pos / 8 >= 1) put_ham24(raw, (pos / 8 - 1) / 3, d); }
-  memcpy(r2, raw, 40);
-  a = parse_28_29(&VBI, raw, &CP, mag8, pk);
-  e1 = CP.data.ext_lop.ext; m2 = CN._magazines[mag8 - 1].extension;
-  /* second run from the same state with one bit flipped in the byte/triplet that was error free */
-  CN._magazines[mag8 - 1].extension = m1;
-  flip(r2, 40, pos);
-  b = parse_28_29(&VBI, r2, &CP2, mag8, pk);
-  e2 = CP2.data.ext_lop.ext;
-  V_ASSERT(a == b, "x28_single_error_same_result");
-  V_ASSERT(CP.function == CP2.function && CP.x28_designations == CP2.x28_designations, "x28_single_error_same_page_state");
-  V_ASSERT(bytes_eq(&e1, &e2, sizeof e1), "x28_single_error_same_page_extension");
-  V_ASSERT(bytes_eq(&m2, &CN._magazines[mag8 - 1].extension, sizeof m2), "x28_single_error_same_magazine_extension");
-  V_ASSERT(bytes_eq(CP.data.drcs.mode, CP2.data.drcs.mode, sizeof CP.data.drcs.mode), "x28_single_error_same_drcs_modes");
+  raw[0] = (uint8_t) ref_ham8(des);
+  a = parse_28_29(vbi, raw, &CP, mag8, pk);
+  /* frame: of the network only the magazine's default extension may change; X/28 never touches it, M/29 never the page's */
+  V_ASSERT(zero_except(X28_CN, X28_CN_SIZE, offsetof(cache_network, _magazines) + offsetof(struct ttx_magazine, extension),
+                       offsetof(cache_network, _magazines) + offsetof(struct ttx_magazine, extension) + sizeof(struct ttx_extension)), "x28_network_frame");
+  V_ASSERT(CP.function >= PAGE_FUNCTION_EPG && CP.function <= PAGE_FUNCTION_IEC_TRIGGER, "x28_function_stays_in_enum");
+  (void) a;
   V_REACH("clean");
   V_END();
 }
